@@ -50,8 +50,19 @@ def run(ctx, rep):
     rep.ob(len(news) == 1, 'R04.1', fn.path, 'one collector per run', 'run() creates exactly one collector (found %d)' % len(news), fn.loc())
     for b, t in news:
         dl = t['dest']['local']
+        owners = {dl}
+        # the collector may be built by a helper and handed to run() by value (`let mut collector = adopt_constants(..)`, spliced
+        # in): its owner is the local the value is finally moved into
+        for _ in range(6):
+            nxt = [st['place']['local'] for bb_, si_, st in fn.stmts()
+                   if st['k'] == 'assign' and not st['place']['proj'] and st['rv']['k'] == 'use' and st['rv']['op'].get('k') == 'move'
+                   and st['rv']['op']['place']['local'] == dl and not st['rv']['op']['place']['proj'] and fn.local_ty(st['place']['local']) == 'gc::GC']
+            if len(nxt) != 1:
+                break
+            dl = nxt[0]
+            owners.add(dl)       # (while it is still the helper's local, the helper's own unwind path drops it)
         is_local = not t['dest']['proj'] and fn.local_ty(dl) == 'gc::GC'
-        drops = {bb for bb in range(len(fn.blocks)) if fn.term(bb)['k'] == 'drop' and fn.term(bb)['place']['local'] == dl and not fn.term(bb)['place']['proj']}
+        drops = {bb for bb in range(len(fn.blocks)) if fn.term(bb)['k'] == 'drop' and fn.term(bb)['place']['local'] in owners and not fn.term(bb)['place']['proj']}
         # every Return / Resume reachable from the creation passes a drop of that local
         reach = fn.reachable(t['target'], stop=drops, unwind=True)
         leaks = [bb for bb in reach if fn.term(bb)['k'] in ('return', 'resume')]
@@ -98,7 +109,7 @@ def run(ctx, rep):
     okc = for_each_over(ca, None, 'constants', (GCN + 'untrace',))
     for h, body in loops:
         unt = [b for b, t in ca.calls(body) if callee_name(t) == GCN + 'untrace']
-        its = [str(sym(ca, t['args'][0])) for b, t in ca.calls() if callee_name(t).endswith('IntoIterator>::into_iter')]
+        its = [str(sym(ca, t['args'][0])) for b, t in ca.calls() if (callee_name(t).endswith('::into_iter') and 'IntoIterator' in callee_name(t))]
         if unt and any('constants' in s_ for s_ in its):
             okc = True
     # and it precedes the construction of Bytecode on the Ok path
@@ -110,7 +121,7 @@ def run(ctx, rep):
     oka = for_each_over(fn, set(fn.reachable(0, stop={header})), 'constants', (GCN + 'maybe_trace', GCN + 'trace'))
     for h, body in pre_loops:
         if any(callee_name(t) in (GCN + 'maybe_trace', GCN + 'trace') for b, t in fn.calls(body)):
-            src = [str(sym(fn, t['args'][0])) for b, t in fn.calls() if callee_name(t).endswith('IntoIterator>::into_iter') and b in fn.reachable(0, stop={header})]
+            src = [str(sym(fn, t['args'][0])) for b, t in fn.calls() if (callee_name(t).endswith('::into_iter') and 'IntoIterator' in callee_name(t)) and b in fn.reachable(0, stop={header})]
             if any('constants' in s_ for s_ in src):
                 oka = True
     rep.ob(oka, 'R04.3', fn.path, 'adopt every constant', 'before the dispatch loop the run\'s collector adopts every constant (loop over the constants calling maybe_trace)', fn.loc())
